@@ -35,6 +35,7 @@ ASSUMPTIONS = [
     "the workqueue layer aborts on concurrent entry by design)",
 ]
 DECIDING_COUNTERS = ["schedule_runs[workqueue]", "schedule_runs[omp]", "analyzer_histories",
+                     "numpy_backend_thread_settings",
                      "options_roundtrips",
                      "result_histories", "plan_identity_checks", "cached_attribute_checks",
                      "reference_checks"]
@@ -235,9 +236,50 @@ def schedule_shard(params, rec):
                                       f"from the single-thread run by {worst:.3e} (K={Kseg}, L={L}, "
                                       f"order {order}, cross={cross})")
             numba.set_num_threads(1)
+        if layer == "workqueue":
+            numpy_backend_threads(rec, params, rng)
     finally:
         for b in burners:
             b.kill()
+
+
+def numpy_backend_threads(rec, params, rng):
+    """The NumPy backend under every worker-thread setting: whatever use it makes of the thread
+    count, a plan's result must not depend on it (plans of many different lengths)."""
+    import numba
+    from speckit.analysis import SpectrumAnalyzer
+    rng = gen.rng_for(params["seed"], "numpy-threads")     # own stream: replayable on its own
+    for Jd in [7, 13, 21, 29, 37, 45, 53, 61, 75, 89, 97, 110, 123, 150, 175, 200]:
+        N = int(rng.integers(2000, 4000))
+        cross = bool(rng.random() < 0.4)
+        x = gen.record(rng, N, "white")
+        data = np.vstack([x, gen.second_channel(rng, x, "mixed")]) if cross else x
+        kw = dict(backend="numpy", Jdes=Jd, Kdes=int(rng.choice([3, 10])), order=int(rng.choice([-1, 0, 1])),
+                  win="hann", olap=0.5)
+        desc = {"kind": "numpy-threads", "seed": params["seed"], "N": N, "Jdes": Jd, "cross": cross,
+                "layer": "workqueue"}
+        rec.case(desc, nontrivial=True)
+        try:
+            numba.set_num_threads(1)
+            base = raw(SpectrumAnalyzer(data, 1.0, **kw).compute())
+            for nt in [2, 3, 5, 7, 8, 11, 13, 14, 15, 16]:
+                if nt > numba.config.NUMBA_NUM_THREADS:
+                    continue
+                numba.set_num_threads(nt)
+                got = raw(SpectrumAnalyzer(data, 1.0, **kw).compute())
+                rec.count("numpy_backend_thread_settings")
+                same_shape = all(base[k].shape == got[k].shape for k in base)
+                bitwise, worst = cmp_raw(base, got) if same_shape else (False, float("inf"))
+                if not (worst <= 1e-12):
+                    rec.violation("schedule-dependence:numpy-backend",
+                                  f"backend numpy, {nt} worker threads, plan of {base['XX'].shape[0]} "
+                                  f"bins (N={N}, Jdes={Jd}): statistics differ from the one-thread "
+                                  f"result by {worst:.3e}")
+                    break
+        except (ValueError, RuntimeError) as e:
+            rec.blocked(f"rejected: {str(e)[:60]}")
+        finally:
+            numba.set_num_threads(1)
 
 
 # -----------------------------------------------------------------------------
@@ -571,6 +613,8 @@ def replay(case, rec):
         analyzer_history(rec, case["seed"])
     elif k == "result-history":
         result_history(rec, case["seed"])
+    elif k == "numpy-threads":
+        numpy_backend_threads(rec, {"seed": case["seed"]}, None)
     elif k == "options-roundtrip":
         options_roundtrip(rec, case["seed"])
     else:
